@@ -173,8 +173,15 @@ func runProperty(def *PropertyDef, tier, root, verif, only, mutant string, seed 
 	if mut != nil {
 		// self-test mode: did the expected obligation fire?
 		hit := false
+		kf, _ := loadFindings(filepath.Join(verif, "known_findings.json"))
+		knownKey := map[string]bool{}
+		for _, f := range kf {
+			if f.Status == "known" && f.Property == def.ID {
+				knownKey[f.Key] = true
+			}
+		}
 		for _, o := range c.Obs {
-			if o.Status != "discharged" {
+			if o.Status != "discharged" && !knownKey[o.Key] {
 				fmt.Printf("  mutant %s: [%s] %s at %s: %s\n", mutant, o.Status, o.Key, o.Pos, o.Msg)
 				if strings.HasPrefix(o.Key, mut.Expect) {
 					hit = true
